@@ -286,7 +286,7 @@ def cases(max_ops):
         fam = st.one_of(poly, poly, smooth) if N >= 17 else poly
         return st.fixed_dictionaries({
             'kind': st.sampled_from(['value', 'value', 'value', 'paths', 'symmetry']),
-            'spec': pairs.pair_specs(curves=('UnitSquare', 'PiSquare', 'LShape', 'Circle', 'CircleGuarded')),
+            'spec': pairs.pair_specs(curves=('UnitSquare', 'PiSquare', 'LShape', 'Circle', 'CircleGuarded', 'Circle2')),
             'ops': gens.graded_histories(max_ops=max_ops, allow=('t', 'x', 'tx')),
             'N': st.just(N), 'res': fam, 'res2': poly, 'ei': st.integers(0, 10**6), 'workers': st.integers(1, 16),
             'rot': st.integers(1, 7),
@@ -489,6 +489,14 @@ def _body(case, rec, cap):
                         want = np.asarray(E3.estimate_sobolev(elems, r2, use_mp=False), dtype=float)
                     if not np.array_equal(got, want):
                         rec.violation(B('cache_shared_between_order_tuples'), {'max_abs_diff': float(np.max(np.abs(got - want)))}, cj)
+                        return
+                    # a second request is answered from the cache: the stored numbers are the indicators, to the accuracy
+                    # the property states for them (1e-8)
+                    with repo.quiet():
+                        hit = np.asarray(E2.estimate_sobolev(elems, r2, use_mp=False), dtype=float)
+                    if hit.shape != want.shape or float(np.max(np.abs(hit - want))) > 1e-9 * float(np.max(np.abs(want))):
+                        rec.violation(B('cache_hit_differs_from_computed_values'),
+                                      {'max_rel_diff': float(np.max(np.abs(hit - want)) / np.max(np.abs(want))) if hit.shape == want.shape else 'shape'}, cj)
                         return
                     rec.cls('paths_cache_two_tuples')
                 finally:
